@@ -3,7 +3,7 @@ _TK_WIDTH_TEXT = "shape units, quick tier: source shorter than 65536 bytes (cuts
 PROPS["C15"] = {
     "level": "other",
     "explanation": "Bounded: each token-tree surgery primitive of token.c (and token_pair_mate) is run, unmodified, on every token shape of a bounded family (top chain of <= 3 tokens in the quick tier / <= 4 thorough, child chains <= 2, child depth <= 2, optional symmetric mates, stale non-head tails, symbolic spans inside a source of symbolic length) and the result is checked against C15's statement -- siblings doubly linked consistently, non-decreasing source order, every [start,start+len) inside the source, mates symmetric -- together with the operation's own effect (expected sibling sequence, spans, types, tail where the code maintains it) and, under -DDISABLE_OBJECT_POOL, ownership (every surviving token and every link stored in it is live). All deciding units for the tree part are bounded shapes, hence level 'other'. PROOF parts: the enum relations (kMaxTokenTypes > every token/CriticMarkup type, BLOCK_BLOCKQUOTE > every parser.h symbol, DOC_START_TOKEN == 0, the six/two-member heading series consecutive and the arithmetic the code does on them) are compile-time obligations on the real headers, regenerated from the headers every run; token_trim_* are proved with loop contracts for a source of any size up to 2^40; the char_is_* contracts for all 256 bytes.",
-    "slice": "token_new_parent, token_chain_append, token_append_child, token_remove_first_child, token_remove_last_child, token_remove_tail, token_pop_link_from_chain, tokens_prune, token_prune_graft, token_split, token_split_on_char (forward links/order only; its full statement fails, see unit tok_split_on_char_full), fix_token_chain_tail, token_pair_mate, token_trim_leading/trailing/_whitespace; token_chain_accept (proof, every input), token_chain_accept_multiple / token_skip_until_type / token_skip_until_type_multiple (bounded chains); enum relations of libMultiMarkdown.h / critic_markup.h / token_pairs.h / parser.h; mmd_assign_ambidextrous_tokens_in_block, standalone superscript/subscript arm (one unit per concrete chain layout); mmd_engine_parse_substring (tokenized range inside the text)",
+    "slice": "token_new_parent, token_chain_append, token_append_child, token_remove_first_child, token_remove_last_child, token_remove_tail, token_pop_link_from_chain, tokens_prune, token_prune_graft, token_split, token_split_on_char (forward links/order only; its full statement fails, see unit tok_split_on_char_full), fix_token_chain_tail, token_pair_mate, token_trim_leading/trailing/_whitespace; token_chain_accept (proof, every input), token_chain_accept_multiple / token_skip_until_type / token_skip_until_type_multiple (bounded chains), strip_leading_whitespace (bounded chains); enum relations of libMultiMarkdown.h / critic_markup.h / token_pairs.h / parser.h; mmd_assign_ambidextrous_tokens_in_block, standalone superscript/subscript arm (one unit per concrete chain layout); mmd_engine_parse_substring (tokenized range inside the text)",
     "not_reached": "the invariant of the tree returned by mmd_engine_parse_string / left by the writers (composition of hundreds of primitive calls driven by generated lexer/parser code); deindent_line, strip_line_tokens_from_block and the other mmd.c tree editors; chains longer than the bound; pool-on configuration (token_free is a no-op there, allocation is C18's contract)",
     "trusted_base": ["cbmc/goto-cc/goto-instrument 6.11.0 (MiniSat2)", "CBMC built-in malloc/free model", "C15/gen_enums.py (lists enumerators and #defines with regular expressions)"],
     "assumptions": [NOFAIL, _TK_WIDTH_TEXT, "`tail` (head -> last sibling) is required before each call and asserted after it only where the code maintains it: it is not part of C15's statement (not maintained: new head after token_pop_link_from_chain/tokens_prune of the head; head after token_split of the last sibling; copied child of token_prune_graft when first == last)"],
@@ -194,3 +194,7 @@ U("chain_skip_until", ["C15", "C01"], "h_skip_until", ["C15/chain_accept.c"], ["
 U("chain_skip_until_multiple", ["C15", "C01"], "h_skip_until_multiple", ["C15/chain_accept.c"], ["token.c", "char.c"], plain=True, lib=(), kind="bounded",
   bounds={"arity (the one call site in /repo)": 2, "chain length<=": 4, "unwind": 6}, cbmc_flags=["--unwind", "6", "--unwinding-assertions"], functions=["token_skip_until_type_multiple"],
   callees={"va_arg": "CBMC built-in"}, native=_CH_NATIVE, min_obligations=5, cost=3)
+U("strip_leading_ws_K3", ["C15", "C16", "C01"], "h_strip_leading", ["C15/strip_lead.c"], ["writer.c", "token.c", "char.c"], plain=True, lib=(), kind="bounded",
+  defines=["-DI18N_DISABLED=1"], bounds={"chain length<=": 3, "source bytes": 4, "unwind": 7}, cbmc_flags=["--unwind", "7", "--unwinding-assertions"],
+  functions=["strip_leading_whitespace", "token_trim_leading_whitespace"], callees={"token_trim_leading_whitespace": "body (contract: unit trim_leading)", "char_is_whitespace": "body and table"},
+  native=None, min_obligations=10, timeout=300, cost=10)
